@@ -71,10 +71,10 @@ impl PaletteMapper {
         // They are applied last so that a color which occurs both below and
         // above 255 gives the same answer (failure) whatever order the
         // palette's entries are visited in.
-        for (idx, entry) in palette.entries.iter().filter(|(idx, _)| **idx < 256) {
-            let _ = map.insert(key(entry), *idx as u8);
+        for entry in palette.iter().filter(|entry| entry.id() < 256) {
+            let _ = map.insert(key(entry), entry.id() as u8);
         }
-        for (_, entry) in palette.entries.iter().filter(|(idx, _)| **idx >= 256) {
+        for entry in palette.iter().filter(|entry| entry.id() >= 256) {
             let _ = map.insert(key(entry), options.failure);
         }
         PaletteMapper {
